@@ -762,8 +762,184 @@ def loopgen_contracts():
     return [LoopGen(n) for n in LOOP_NESTS]
 
 
+# ---- _pyast statement printer ---------------------------------------------------------------------------------------------------
+
+class Tok(Sym):
+    """the text of an expression (`py_expr`): an opaque one-line token, never inspected by the printer"""
+
+    def __init__(self, name):
+        self.name = name
+
+    def getattr(self, ctx, name):
+        if name == 'py_expr':
+            return Txt([self])
+        raise Unsupported('expression attribute %s in the statement printer' % name)
+
+    def truth(self, ctx):
+        return True
+
+
+class Txt(Sym):
+    """a line of text: concrete pieces and expression tokens; only concatenation is allowed"""
+
+    def __init__(self, parts):
+        self.parts = list(parts)
+
+    def binop(self, ctx, op, other, reflected):
+        if op != '+':
+            return NotImplemented
+        o = Txt.lift(other)
+        return Txt(o.parts + self.parts) if reflected else Txt(self.parts + o.parts)
+
+    @staticmethod
+    def lift(v):
+        if isinstance(v, Txt):
+            return v
+        if isinstance(v, str):
+            return Txt([v])
+        if isinstance(v, CStr):
+            return Txt([v.s])
+        raise Unsupported('text built from %r' % (v,))
+
+    def render(self):
+        return ''.join(p if isinstance(p, str) else p.name for p in self.parts)
+
+
+class CStr(Sym):
+    """a concrete str that offers the two operations CommentBlock uses"""
+
+    def __init__(self, s):
+        self.s = s
+
+    def contains(self, ctx, item):
+        if not isinstance(item, str):
+            raise Unsupported('`in` on a comment with a non-literal')
+        return item in self.s
+
+    def getattr(self, ctx, name):
+        if name == 'splitlines':
+            return lambda ctx: list(self.s.splitlines())
+        raise Unsupported('str.' + name)
+
+    def truth(self, ctx):
+        return bool(self.s)
+
+
+PCLASS = {'block': 'Block', 'with': 'With', 'if': 'If', 'for': 'ForLoop', 'comment': 'CommentBlock', 'assign': 'Assign', 'exec': 'Exec', 'assert': 'Assert', 'raise': 'Raise'}
+
+
+class PNode(Sym):
+    """a _pyast statement object: its fields, and `lines` / `__bool__` / helpers run from the REAL class bodies"""
+
+    def __init__(self, S, cls, **attrs):
+        self.S, self.cls, self.attrs = S, cls, attrs
+
+    def getattr(self, ctx, name):
+        if name in self.attrs:
+            return self.attrs[name]
+        if name == 'lines':
+            return self.S.call('_pyast:%s.lines' % self.cls, self)
+        if name == '_get_single_line_statement' and self.cls == 'CommentBlock':
+            return lambda ctx: self.S.call('_pyast:CommentBlock._get_single_line_statement', self)
+        raise Unsupported('%s.%s in the statement printer' % (self.cls, name))
+
+    def unop(self, ctx, op):
+        if op == 'not':
+            return not self.truth(ctx)
+        raise Unsupported('unary %s on a statement object' % op)
+
+    def truth(self, ctx):
+        r = self.S.call('_pyast:%s.__bool__' % self.cls, self)
+        if isinstance(r, SBool):
+            return r.b
+        if not isinstance(r, bool):
+            raise Unsupported('__bool__ returned %r' % (r,))
+        return r
+
+
+def build_pnode(S, t):
+    k = t[0]
+    if k == 'block':
+        return PNode(S, 'Block', _items=[build_pnode(S, c) for c in t[1]])
+    if k == 'assign':
+        return PNode(S, 'Assign', lhs=Tok(t[1]), rhs=Tok(t[2]))
+    if k == 'exec':
+        return PNode(S, 'Exec', expression=Tok(t[1]))
+    if k == 'assert':
+        return PNode(S, 'Assert', condition=Tok(t[1]))
+    if k == 'raise':
+        return PNode(S, 'Raise', exception=Tok(t[1]))
+    if k == 'with':
+        return PNode(S, 'With', item=Tok(t[1]), body=build_pnode(S, t[4]), as_=Tok(t[2]) if t[2] else None, omit_if_body_is_empty=t[3])
+    if k == 'if':
+        return PNode(S, 'If', condition=Tok(t[1]), body=build_pnode(S, t[2]), else_body=build_pnode(S, t[3] if t[3] is not None else ('block', [])))
+    if k == 'for':
+        return PNode(S, 'ForLoop', var=Tok(t[1]), iterable=Tok(t[2]), body=build_pnode(S, t[3]))
+    if k == 'comment':
+        return PNode(S, 'CommentBlock', comment=CStr(t[1]), statements=build_pnode(S, t[2]))
+    raise ValueError(k)
+
+
+def _first_kind(name):
+    from native import c16b
+    k = name.split('>')[0] if '>' in name else {'with-empty': 'with', 'with-as-empty': 'with', 'with-omit-empty': 'with', 'if-empty-else': 'if', 'if-empty-both': 'if', 'for-empty': 'for',
+                                                 'comment-one-statement': 'comment', 'comment-one-block-statement': 'comment', 'comment-on-with': 'comment', 'comment-empty': 'comment',
+                                                 'with-holding-only-an-empty-if': 'with', 'with-omit-holding-only-an-empty-for': 'with', 'lock-pattern': 'with'}[name]
+    return PCLASS[k.split('-')[0]]
+
+
+class Printer(InProc, Contract):
+    """The text printed for a statement tree, read back by CPython's own parser, is the same statement tree: what the tree puts
+    inside a With/If/ForLoop is inside that statement's suite in the text, in order (expression texts are opaque tokens)."""
+    prop = PROP
+
+    def __init__(self, name):
+        self.tree_name = name
+        self.fn = '_pyast:%s.lines' % _first_kind(name)
+        self.label = 'tree:' + name
+        self.bounded = 'statement tree %s of the bounded family (nesting depth <= 3 below the root block; expression texts opaque)' % name
+
+    def setup(self, cx):
+        from native import c16b
+
+        def fstr(parts):
+            out = []
+            for p in parts:
+                out += [p] if isinstance(p, str) else Txt.lift(p[1]).parts
+            return Txt(out)
+        cx.fstring_hook = fstr
+        S = State(tree=c16b.printer_tree(self.tree_name))
+        S.globals = {'Block': ClassRef('Block', construct=lambda ctx, items=(): PNode(S, 'Block', _items=list(ops.iterate(ctx, items))))}
+        return S
+
+    def body(self, cx, S, call):
+        S.call = call
+        S.root = build_pnode(S, S.tree)
+        return call('_pyast:Block.lines', S.root)
+
+    def raises(self, cx, S, e):
+        return False
+
+    def ensures(self, cx, S, result):
+        from native import c16b
+        names = ('every-yielded-line-is-one-line', 'printed-text-is-valid-python', 'cpython-reads-the-text-back-as-the-same-statement-tree', 'comments-stay-comments')
+        try:
+            lines = [Txt.lift(l).render() for l in ops.iterate(cx, result)]
+        except Unsupported:
+            return [(n, z3.BoolVal(False)) for n in names]
+        return [(c, z3.BoolVal(bool(ok))) for c, ok, _ in c16b.printer_verdict(S.tree, lines)]
+
+    def replay(self, ob):
+        return _native('run_printer(%r, %r)' % (self.tree_name, ob.clause))
+
+
+def printer_contracts():
+    from native import c16b
+    return [Printer(n) for n in c16b.printer_names()]
+
+
 def contracts():
-    return alloc_contracts() + emit_contracts() + loopgen_contracts()
+    return alloc_contracts() + emit_contracts() + loopgen_contracts() + printer_contracts()
 
 
 def extra_obligations(tier, seed):
